@@ -60,17 +60,20 @@ EmitParam(cfg, p, n, asBuilt) ==
 \* as built, a Google/NumPy return section that follows NO parameter section is glued to its header
 \* ("Returns:  int:" / "-------int"): the emitter-side cause of the finding gn_return_only_mangled
 EmitReturnGlued(cfg, r) ==
-  LET t == IF Written(cfg, r) THEN r.typ ELSE "absent" IN
-  IF cfg.style = "google" THEN <<L("gret_glued", 0, t, "absent", "none"), L("gret_doc", 0, "absent", r.doc, "none")>>
-  ELSE <<L("ReturnsHdr", 0, "absent", "absent", "none"), L("dashes_glued", 0, t, "absent", "none"), L("ndoc", 0, "absent", r.doc, "none")>>
+  LET t == IF Written(cfg, r) THEN r.typ ELSE "absent" d == r.doc # "absent" IN
+  IF cfg.style = "google" THEN <<L("gret_glued", 0, t, "absent", "none")>> \o (IF d THEN <<L("gret_doc", 0, "absent", r.doc, "none")>> ELSE <<>>)
+  ELSE <<L("ReturnsHdr", 0, "absent", "absent", "none"), L("dashes_glued", 0, t, "absent", "none")>>
+       \o (IF d THEN <<L("ndoc", 0, "absent", r.doc, "none")>> ELSE <<>>)
+\* (a description line is written only when there is a description; a return entry with nothing to write gets no lines at all)
 EmitReturn(cfg, r, asBuilt) ==
-  LET w == Written(cfg, r) t == IF w THEN r.typ ELSE "absent" IN
-  CASE cfg.style = "rest" -> <<L("return", 0, "absent", r.doc, "none")>> \o (IF w THEN <<L("rtype", 0, t, "absent", "none")>> ELSE <<>>)
-    [] cfg.style = "google" -> <<L("ReturnsHdr", 0, "absent", "absent", "none"), L("gret_typ", 0, t, "absent", "none"),
-                                 L("gret_doc", 0, "absent", r.doc, "none")>>
+  LET w == Written(cfg, r) t == IF w THEN r.typ ELSE "absent" d == r.doc # "absent" IN
+  IF ~D!RetWritten(cfg, r) THEN <<>> ELSE
+  CASE cfg.style = "rest" -> (IF d THEN <<L("return", 0, "absent", r.doc, "none")>> ELSE <<>>) \o (IF w THEN <<L("rtype", 0, t, "absent", "none")>> ELSE <<>>)
+    [] cfg.style = "google" -> <<L("ReturnsHdr", 0, "absent", "absent", "none"), L("gret_typ", 0, t, "absent", "none")>>
+                                 \o (IF d THEN <<L("gret_doc", 0, "absent", r.doc, "none")>> ELSE <<>>)
     [] cfg.style = "numpydoc" -> <<L("ReturnsHdr", 0, "absent", "absent", "none"), L("dashes", 0, "absent", "absent", "none")>>
                                  \o (IF w \/ ~asBuilt THEN <<L("nret_typ", 0, t, "absent", "none")>> ELSE <<>>)
-                                 \o <<L("ndoc", 0, "absent", r.doc, "none")>>
+                                 \o (IF d THEN <<L("ndoc", 0, "absent", r.doc, "none")>> ELSE <<>>)
 SectionHdr(cfg, i) == IF i.params = <<>> THEN <<>>
                       ELSE CASE cfg.style = "google" -> <<L("ArgsHdr", 0, "absent", "absent", "none")>>
                              [] cfg.style = "numpydoc" -> <<L("ParametersHdr", 0, "absent", "absent", "none"), L("dashes", 0, "absent", "absent", "none")>>
@@ -80,8 +83,8 @@ EmitLines(cfg, i, asBuilt) ==
   \o SectionHdr(cfg, i)
   \o Concat([k \in 1..Len(i.params) |-> EmitParam(cfg, i.params[k], k, asBuilt)])
   \o (IF cfg.style # "rest" /\ i.params # <<>> THEN <<Blank>> ELSE <<>>)
-  \o (IF i.ret = D!NoRet THEN <<>>
-      ELSE IF asBuilt /\ i.params = <<>> /\ cfg.style # "rest" /\ Written(cfg, i.ret) THEN EmitReturnGlued(cfg, i.ret)
+  \o (IF i.ret = D!NoRet \/ ~D!RetWritten(cfg, i.ret) THEN <<>>
+      ELSE IF asBuilt /\ i.params = <<>> /\ cfg.style # "rest" /\ (Written(cfg, i.ret) \/ cfg.style = "numpydoc") THEN EmitReturnGlued(cfg, i.ret)
       ELSE EmitReturn(cfg, i.ret, asBuilt))
 
 \* ---- parse: a fold over the lines ------------------------------------------------------------------------------
